@@ -369,7 +369,7 @@ func (c *conn) sqlStatement(ctx context.Context, query string) (*sqlResult, erro
 		c.w.probe("system_store_sql:" + verb + ":" + table)
 	}
 	task := taskKeyOf(ctx)
-	st := &stmtState{}
+	st := &stmtState{ledger: stmtLedgerOf(ctx), task: task, query: normSQL(query)}
 	var res *sqlResult
 	err = c.w.runStmt(ctx, c, func() error {
 		var e error
